@@ -116,6 +116,16 @@ CHECKS["C04"] = dict(
     design="§3 C04",
 )
 
+CHECKS["C08"] = dict(
+    category="exploration",
+    text="All fragment DAGs over 2-3 (quick) / 2-4 (thorough) fragments x type conditions (object, two interfaces, union) x root configurations x every order of the definitions in the queries file, "
+         "each also with reverse-alphabetical fragment names; operation sets where one fragment is spread on its own type and unpacked elsewhere; 10 @mixin placements. Each package is generated, imported, "
+         "driven on explored responses: isinstance of the fragment class at every demanded spread, fragment class validates the sub-payload, class present in fragments module, mixin is a direct base of exactly the expected classes.",
+    note="Trusted: graphql-core field collection for locating spreads, reference executor. Literal reading of the statement for where the isinstance demand applies (see assumptions in evidence).",
+    technique="exhaustive enumeration of fragment dependency graphs x definition orders through the real generator with structural (MRO / isinstance) oracles",
+    design="§3 C08",
+)
+
 PENDING_REASON = "check not built yet in this round (work in progress, see DESIGN.md §6)"
 NOT_APPLICABLE = {}
 
